@@ -813,10 +813,18 @@ impl CatalogPersistence {
     pub fn save(catalog: &Catalog, path: &Path) -> Result<()> {
         let catalog_bytes = Self::serialize(catalog).wrap_err("failed to serialize catalog")?;
 
-        let mut file = File::create(path)
-            .wrap_err_with(|| format!("failed to create catalog file at '{}'", path.display()))?;
+        // write the new catalog to a temporary file, make it durable, then atomically replace the
+        // old file: a crash at any point leaves either the complete old or the complete new catalog
+        let tmp_path = {
+            let mut name = path.file_name().map(|n| n.to_os_string()).unwrap_or_default();
+            name.push(".tmp");
+            path.with_file_name(name)
+        };
+        let mut file = File::create(&tmp_path).wrap_err_with(|| {
+            format!("failed to create catalog file at '{}'", tmp_path.display())
+        })?;
         #[cfg(kahflane_turdb_verif)]
-        crate::verif_hooks::io_event("cat_create", &path.to_string_lossy(), 0, 0);
+        crate::verif_hooks::io_event("cat_create", &tmp_path.to_string_lossy(), 0, 0);
 
         let mut header = vec![0u8; HEADER_SIZE];
 
@@ -846,17 +854,29 @@ impl CatalogPersistence {
         file.write_all(&header)
             .wrap_err("failed to write file header")?;
         #[cfg(kahflane_turdb_verif)]
-        crate::verif_hooks::io_event("cat_header", &path.to_string_lossy(), HEADER_SIZE as u64, 0);
+        crate::verif_hooks::io_event("cat_header", &tmp_path.to_string_lossy(), HEADER_SIZE as u64, 0);
 
         file.write_all(&catalog_bytes)
             .wrap_err("failed to write catalog data")?;
         #[cfg(kahflane_turdb_verif)]
-        crate::verif_hooks::io_event("cat_body", &path.to_string_lossy(), catalog_length, 0);
+        crate::verif_hooks::io_event("cat_body", &tmp_path.to_string_lossy(), catalog_length, 0);
 
         file.sync_all()
             .wrap_err("failed to sync catalog file to disk")?;
         #[cfg(kahflane_turdb_verif)]
-        crate::verif_hooks::io_event("cat_sync", &path.to_string_lossy(), 0, 0);
+        crate::verif_hooks::io_event("cat_sync", &tmp_path.to_string_lossy(), 0, 0);
+        drop(file);
+
+        std::fs::rename(&tmp_path, path).wrap_err_with(|| {
+            format!("failed to move new catalog into place at '{}'", path.display())
+        })?;
+        #[cfg(kahflane_turdb_verif)]
+        crate::verif_hooks::io_event("cat_rename", &format!("{}|{}", tmp_path.display(), path.display()), 0, 0);
+        if let Some(dir) = path.parent() {
+            if let Ok(d) = File::open(dir) {
+                let _ = d.sync_all();
+            }
+        }
 
         Ok(())
     }
